@@ -5,7 +5,13 @@
 // {same type, generated<->dynamic, different message type, pointer to non-proto};
 // overlapping copies (overlap.go); and sequences of 2-3 operations of ONE adapter
 // object in which later operations read objects that earlier ones produced or
-// read, modified by their owner in between (seqs.go, seqmod.go).
+// read, modified by their owner in between (seqs.go, seqmod.go); and the
+// provenance of the descriptor behind a dynamic message (prov.go): the cached
+// descriptor of the generated type or a second descriptor object for the same
+// message type (built again from the FileDescriptorProto, through a descriptor
+// set round trip, with the whole import closure built again, or anew for every
+// message), source and destination independently, crossed with the isolated
+// operations and swept around the 2-step sequences.
 // The real adapters from inprocgrpc run on every case; the oracle is in oracle.go
 // (equality, source unchanged, behavioural disjointness by in-place mutation,
 // destination replaced, refusal with an error and never a panic).
@@ -66,7 +72,15 @@ func main() {
 		if k.Adapter == "" || (!isNP(k.Src) && specByName[k.Src] == nil) || (k.DstFill != "" && specByName[k.DstFill] == nil) || (k.Hook != "" && specByName[k.Inner] == nil) {
 			inconclusive("replay file does not describe a C18 case")
 		}
+		for _, r := range []string{k.SrcRep, k.DstRep, k.InnerSrcRep, k.InnerDstRep} {
+			if r != "" && !knownRep(r) {
+				inconclusive("replay file names an unknown representation: " + r)
+			}
+		}
 		for _, st := range k.Seq {
+			if st.DstRep != "" && !knownRep(st.DstRep) {
+				inconclusive("replay file names an unknown representation: " + st.DstRep)
+			}
 			if (st.Op != "Clone" && st.Op != "Copy") || (st.Dst == "fill" && specByName[st.DstFill] == nil) || isNP(k.Src) {
 				inconclusive("replay file does not describe a C18 sequence")
 			}
@@ -89,6 +103,9 @@ func main() {
 	// --- the checker checks itself first: pool, mutator power, reference clone/copy functions
 	if pr := poolCheck(); len(pr) > 0 {
 		inconclusive(fmt.Sprintf("message pool is not well-formed: %v", pr))
+	}
+	if pr := provCheck(); len(pr) > 0 {
+		inconclusive(fmt.Sprintf("the descriptor provenances are not what they are meant to be: %v", pr))
 	}
 	if pr := mutatorCheck(); len(pr) > 0 {
 		inconclusive(fmt.Sprintf("disjointness test mis-calibrated: %v", pr))
@@ -115,6 +132,10 @@ func main() {
 		self(k)
 	}
 	enumerateSeq("raw", false, self) // (the reference functions keep no state: the sequences of the quick tier)
+	for _, k := range enumerateProv("raw", thorough) {
+		self(k)
+	}
+	enumerateSeqProv("raw", false, self)
 	calProblems, calCases := seqCalibration()
 	if len(calProblems) > 0 {
 		inconclusive(fmt.Sprintf("the sequence grammar is mis-calibrated: %v", calProblems))
@@ -125,7 +146,8 @@ func main() {
 	distinct := map[string]bool{}
 	distinctSeq := map[uint64]struct{}{}
 	seqEvals := map[int]int{}
-	var seqSamples []interface{}
+	var seqSamples, provSamples []interface{}
+	provEvals, seqProvEvals := 0, 0
 	perClass := map[string]int{}
 	var samples []interface{}
 	sampled := map[string]bool{}
@@ -137,7 +159,21 @@ func main() {
 		if o.Internal != "" {
 			inconclusive(o.Internal)
 		}
-		if len(k.Seq) > 0 {
+		if len(k.Seq) > 0 && k.hasProv() {
+			seqProvEvals++
+			if o.Reached || len(o.Findings) > 0 {
+				h := hash64(k.Adapter + "|" + k.Src + "|" + k.SrcRep + o.EffKey)
+				if _, dup := distinctSeq[h]; !dup {
+					distinctSeq[h] = struct{}{}
+					perClass[fmt.Sprintf("%s|Seq|2 steps, descriptor provenance sweep", k.Adapter)]++
+				}
+			}
+			if sk := "seqprov|" + k.SrcRep + "|" + k.Seq[0].DstRep; !sampled[sk] && len(provSamples) < 12 && k.Adapter == "ProtoCloner" && k.Src == seqPoolQuick[0] &&
+				(k.SrcRep == "dyn@fresh" || k.SrcRep == "dyn@set") && k.Seq[0].Dst == "fill" && k.Seq[1].Dst == "obj" && k.Seq[1].Src == 1 && k.Seq[1].Mod == "deep" {
+				sampled[sk] = true
+				provSamples = append(provSamples, map[string]interface{}{"case": k, "reads": describe(k), "observed": o.Observed, "in_place_mutations": o.Mutations})
+			}
+		} else if len(k.Seq) > 0 {
 			seqEvals[len(k.Seq)]++
 			// distinct by the steps that had an effect: a modification kind that does not
 			// apply to the object makes the case coincide with the unmodified one
@@ -161,7 +197,14 @@ func main() {
 				perClass[k.Adapter+"|"+k.Op+"|"+k.pairing()]++
 			}
 			sk := k.Op + "|" + k.pairing()
-			if !sampled[sk] && len(samples) < 12 && k.Adapter == "ProtoCloner" && (isNP(k.Src) || k.Src == "msg-full") {
+			if k.hasProv() {
+				provEvals++
+				if sk = "prov|" + sk + "|" + k.SrcRep + "|" + k.DstRep; !sampled[sk] && len(provSamples) < 8 && k.Adapter == "ProtoCloner" && k.Src == "trailer-full" && k.DstFill != "" &&
+					(k.SrcRep == "dyn@deps" || k.DstRep == "dyn@fresh") && k.SrcRep != "dyn@rebuilt" && k.DstRep != "dyn@set" {
+					sampled[sk] = true
+					provSamples = append(provSamples, map[string]interface{}{"case": k, "expected": k.expect(), "observed": o.Observed, "in_place_mutations": o.Mutations})
+				}
+			} else if !sampled[sk] && len(samples) < 12 && k.Adapter == "ProtoCloner" && (isNP(k.Src) || k.Src == "msg-full") {
 				sampled[sk] = true
 				samples = append(samples, map[string]interface{}{"case": k, "expected": k.expect(), "observed": o.Observed, "in_place_mutations": o.Mutations})
 			}
@@ -187,6 +230,15 @@ func main() {
 	// operation sequences on one adapter object, after every isolated operation
 	for _, a := range adapterNames {
 		enumerateSeq(a, thorough, process)
+	}
+	// the provenance of a dynamic message's descriptor: isolated operations, then 2-step sequences
+	for _, a := range provAdapters() {
+		for _, k := range enumerateProv(a, thorough) {
+			process(k)
+		}
+	}
+	for _, a := range adapterNames {
+		enumerateSeqProv(a, thorough, process)
 	}
 	for _, fp := range aggOrder {
 		a := agg[fp]
@@ -223,22 +275,41 @@ func main() {
 			"A failing sequence is reduced before it is reported: shortest failing prefix, then the failing step is repeated by a NEW adapter object on the same objects; if it fails there too the finding is reported in the class of the isolated operation, " +
 			"so a fingerprint with 'seq:' names something that takes a long-lived adapter: seq:src=<what the adapter did with the source object last: base (read it) | clone-result | copy-dest>[,modified (by its owner since)]:<representations>. " +
 			"A sequence counts as non-trivial when its last operation was reached (every step >= 2 then ran on an object the adapter had seen before) or a clause failed; distinct by adapter, base object and the steps, " +
-			"where a modification kind that changed nothing (no such field) is struck out, so that it coincides with the unmodified sequence.",
-		"samples":                      append(samples, seqSamples...),
-		"exhaustive":                   true,
-		"pool_messages":                len(pool),
-		"message_types":                len(typeOrder),
-		"adapters":                     adapterNames,
-		"self_check_cases":             selfCases,
-		"sequence_evaluations":         map[string]int{"2 steps": seqEvals[2], "3 steps": seqEvals[3]},
-		"sequence_distinct_nontrivial": len(distinctSeq),
-		"sequence_pool":                seqPoolNames(thorough),
-		"sequence_pool_3_steps":        map[string]interface{}{"quick": seqPoolNames(false)[:seqPool3Quick], "thorough_one_single_kind_modification": seqPoolNames(false)[:seqPool3Quick], "thorough_coarse_modifications": "whole sequence pool"},
-		"sequence_modifications":       allMods[1:],
+			"where a modification kind that changed nothing (no such field) is struck out, so that it coincides with the unmodified sequence. " +
+			"Provenance of a dynamic message's descriptor: the representation of a message is one of gen | dyn | dyn@rebuilt | dyn@set | dyn@deps | dyn@fresh, where dyn is a *dynamic.Message over the cached descriptor of the generated type " +
+			"(desc.LoadMessageDescriptorForMessage), @rebuilt over a second descriptor object made by desc.CreateFileDescriptor from a copy of the same FileDescriptorProto on the same dependency file objects, @set over one obtained through a descriptor set " +
+			"round trip (ToFileDescriptorSet, marshal, unmarshal, CreateFileDescriptorFromSet), @deps over one for which every file of the import closure was built again, @fresh over a descriptor object built anew for every single message " +
+			"(so two @fresh messages never share their descriptor, whereas two messages of one other kind do). Source and destination take their representation independently: all 32 ordered pairs with at least one descriptor that is not the cached one " +
+			"(24 dynamic->dynamic, 4 ->generated, 4 generated->) are crossed with the whole message pool (all 14 message types), with Clone, Copy into an empty and into a pre-populated destination (fillers of the tier), with copies from and to a pointer to a non-proto value, " +
+			"with copies into every OTHER message type (empty and pre-populated; quick: from the last message of each type, thorough: from every message of the pool), for the four adapters and for CloneFunc / CopyFunc around the library's own ProtoCloner methods " +
+			"(a user function that delegates). The oracle is the one of the isolated operation: same full message name => a copy that is equal, deep, independent and replaces the destination; another name or a non-proto pointer => refusal. " +
+			"The dimension is then swept around the 2-step sequences: for each of the 32 pairs (representation of the base object, representation of every dynamic destination the steps make), every 2-step sequence with modifications in {nothing, everything in place} " +
+			"over provenance_sequence_pool. It is not crossed with the overlapping copies and the 3-step sequences. " +
+			"Fingerprints class two dynamic messages by the relation of their descriptor objects (@descs=separate: two objects for one type; @descs=one-uncached: one object that is not the cached one; @desc=uncached where only one side is dynamic or a refusal is due), the replay names the provenances. A failing case of this part of the grammar is first run again with every dynamic message over the cached descriptor; a clause that fails there too is reported in the class of that base case, so a class with @desc names something in which the descriptor object plays a part. " +
+			"Non-trivial and distinct as for the isolated operations and the sequences.",
+		"samples":                         append(append(samples, seqSamples...), provSamples...),
+		"exhaustive":                      true,
+		"pool_messages":                   len(pool),
+		"message_types":                   len(typeOrder),
+		"adapters":                        adapterNames,
+		"self_check_cases":                selfCases,
+		"sequence_evaluations":            map[string]int{"2 steps": seqEvals[2], "3 steps": seqEvals[3], "2 steps, descriptor provenance sweep": seqProvEvals},
+		"descriptor_provenances":          append([]string{"cached (the descriptor of the generated type)"}, provKinds[1:]...),
+		"representations":                 append([]string{"gen"}, dynReps...),
+		"provenance_evaluations":          map[string]int{"isolated operations": provEvals, "2-step sequences": seqProvEvals},
+		"provenance_representation_pairs": len(repPairs()),
+		"provenance_adapters":             provAdapters(),
+		"provenance_sequence_pool":        seqProvPoolNames(thorough),
+		"sequence_distinct_nontrivial":    len(distinctSeq),
+		"sequence_pool":                   seqPoolNames(thorough),
+		"sequence_pool_3_steps":           map[string]interface{}{"quick": seqPoolNames(false)[:seqPool3Quick], "thorough_one_single_kind_modification": seqPoolNames(false)[:seqPool3Quick], "thorough_coarse_modifications": "whole sequence pool"},
+		"sequence_modifications":          allMods[1:],
 		"sequence_calibration": map[string]interface{}{"adapters_wrong_only_across_operations": faultyAdapters, "cases": calCases,
 			"result": "each passes every isolated operation of the quick grammar and is reported by the 2-step sequences"},
 		"nontrivial_by_class": classes,
 	}, []string{
+		"descriptor provenance: every descriptor object describes the message type exactly as the generated code does (same FileDescriptorProto; checked before the run); descriptors with the same full name and different content are not in the grammar, nor are descriptors obtained over a live reflection connection (they are built the same way as @set)",
+		"descriptor provenance: the delegating configurations CloneFunc(ProtoCloner.Clone) / CopyFunc(ProtoCloner.Copy) run the provenance grammar of the isolated operations only; overlapping copies and 3-step sequences use the cached descriptor only",
 		"*dynamic.Message exposes no protoreflect view: its content is mutated through its public accessors (stored byte slices, nested messages and unknown-field records are handed out by reference; SetRepeatedField/PutMapField write into the stored slice/map)",
 		"equality of a dynamic message is judged on its deterministic wire form parsed into the generated type",
 		"the clone and copy functions given to CloneFunc/CopyFunc are the checker's own; they pass the same oracle on the whole grammar, sequences included, before the adapters are run (otherwise exit 2)",
